@@ -145,6 +145,31 @@ class Teardown:
                 return st.replace(flags=(st.flags - gone) | new)
         return None
 
+    def on_fill(self, eng, ev, st):
+        return add(st, ("filled", ev.box, ev.field))
+
+    def on_handle_drop(self, eng, ev, st):
+        # TS-6: a strong handle whose drop would destroy the value may only exist (be dropped) for a box
+        # whose value has been initialised; while a fresh allocation is being filled it must be held
+        # as Rc<MaybeUninit<T>> (whose drop does not touch the value)
+        if ev.handle != "Rc" or ev.box is None:
+            return None
+        from interp import alloc_root
+        ty = ev.get("ty") or ""
+        inner = ty.split("Rc<", 1)[1] if "Rc<" in ty else ""
+        if inner.startswith("core::mem::MaybeUninit<") or inner.startswith("std::mem::MaybeUninit<"):
+            return None
+        if alloc_root(ev.box) is None:
+            return None
+        eng.obl("TS-6", "drop-of-handle-to-fresh-box", ev.b)
+        if ("filled", ev.box, "value") in st.flags:
+            return None
+        if mentions(ev.box, lambda x: x[0] == "agg" and x[2] == "cactusref::rc::RcBox"):
+            return None   # Box::new(RcBox { value, .. }): initialised at allocation
+        eng.violate("TS-6", "handle-to-uninitialised-value-dropped", "a strong handle (%s) to a freshly allocated object is dropped%s before the object's value has been written: Rc::drop destroys a value that was never constructed" % (
+            ty, " on an unwinding path" if any(f[0] == "unwinding" for f in st.flags) else ""), ev.b, st)
+        return None
+
     def on_forget(self, eng, ev, st):
         for fl in st.flags:
             if (fl[0] == "mv" and (sub(ev.value, fl[3]) or ev.value == fl[3])) or (fl[0] == "held" and (sub(ev.value, fl[1]) or ev.value == fl[1])):
